@@ -44,6 +44,10 @@ def handle (op : String) (args : List String) (impl : String) : Verdict :=
                       ⟨if a.int < 0 then -1 else if a.int == 0 then 0 else 1, 0⟩ impl name (a.int == 0)
       -- Signed::abs_sub(x, 0) = max(x, 0): zero (Zero::zero()) when x <= 0, else x - 0
       | "abs_sub0" => judgeValue (if a.int ≤ 0 then some ⟨0, 0⟩ else evalOp .sub .RD .RD a ⟨0, 0⟩) (if a.int ≤ 0 then ⟨0, 0⟩ else a) impl name (a.int == 0)
+      -- Signed::is_positive / is_negative (as 1 / 0) and `x + BigDecimal::default()` (default = zero)
+      | "is_pos" => judgeValue (some ⟨if a.int > 0 then 1 else 0, 0⟩) ⟨if a.int > 0 then 1 else 0, 0⟩ impl name false
+      | "is_neg" => judgeValue (some ⟨if a.int < 0 then 1 else 0, 0⟩) ⟨if a.int < 0 then 1 else 0, 0⟩ impl name false
+      | "default_plus" => judgeValue (evalOp .add .D .D a ⟨0, 0⟩) a impl name (a.int == 0)
       | "double" => judgeValue (some a.double) (Spec.add a a) impl name (a.int == 0)
       | "half" => judgeValue (some a.half) (Spec.half a) impl name (a.int == 0)
       | "square" => judgeValue (some a.square) (Spec.mul a a) impl name (a.int == 0)
